@@ -79,6 +79,7 @@ def step (w : World) (line : String) : World × String :=
   let bad := (w, "bad-op")
   match ws with
   | ["#case"] => (World.init, "#case")
+  | ["failnext"] => ({ w with failNext := true }, "ok")
   | ["sizes"] =>
     (w, s!"sizes ## pool={sizeofPool} seg={poolHdr} tree={sizeofTree} item={treeHdr} slab={sizeofSlab} frag={slabFragHdr} mp={mpHdr} th={tallocHdr}")
   | ["pool", s, par, ini, al, mis] =>
@@ -127,6 +128,7 @@ def step (w : World) (line : String) : World × String :=
     (match num s, num mis with
      | some s, some mis =>
        if (w.slot s).isSome then bad else
+       let w := { w with failNext := false }
        let (w1, root) := trkAlloc w tallocHdr mis
        let (w2, cx) := trkAlloc w1 (16 + tallocHdr) mis
        let w3 := w2.setSlot s (.talloc root cx [])
@@ -231,7 +233,7 @@ def step (w : World) (line : String) : World × String :=
         | some (.mp m) =>
           if (w.blk b).isSome || size ≥ 2 ^ 32 then bad else
           let (w1, pa) := match mpAllocReq m size with
-            | some req => let (w1, a) := trkAlloc w req mis; (w1, some a)
+            | some req => trkAllocO w req mis
             | none => (w, none)
           (match mpAlloc m size pa with
            | some (m', q) =>
@@ -292,4 +294,9 @@ def step (w : World) (line : String) : World × String :=
 
 end C09Drv
 
-def main : IO Unit := runDriver World.init C09Drv.step
+/-- `failnext` arms a failure of the base allocator for the next op line only -/
+def stepLine (w : World) (line : String) : World × String :=
+  let (w', out) := C09Drv.step w line
+  if words line == ["failnext"] then (w', out) else ({ w' with failNext := false }, out)
+
+def main : IO Unit := runDriver World.init stepLine
